@@ -715,6 +715,7 @@ func (x *c24ctx) ops(l *c24live) []c24op {
 }
 
 func c24(r *engine.Run) {
+	r.RaceWorkload = "peers:connections" // supplement: free-running race-detector pass on one shared object (can only add findings)
 	x := &c24ctx{r: r}
 	if r.Quick() {
 		r.SetBudget(70 * time.Second)
